@@ -28,7 +28,8 @@
 using namespace ccl;
 using namespace ccl::lang;
 struct Ctx final : EntityTermContext {
-  LexicalTerm x1{"term", "term"};
+  // the term text mixes 1- and 2-byte code points (Cyrillic "е"): a byte/code-point confusion in the resolved ranges is invisible with ASCII terms
+  LexicalTerm x1{"t\xD0\xB5rm", "t\xD0\xB5rm"};
   LexicalTerm x3{"", ""};
   const LexicalTerm* At(const std::string& e) const override { return e == "X1" ? &x1 : e == "X3" ? &x3 : nullptr; }
   bool Contains(const std::string& e) const override { return e == "X1" || e == "X3"; }
